@@ -174,6 +174,39 @@ class Deriv:
                             changed = True
         self.ctx = ctx
 
+    def production_trees(self, nt):
+        """one tree per production of nt (its children expanded by their shortest derivations): substituting each of them for a
+        child of a parent production covers every (parent production, child production) pair of the grammar"""
+        out = []
+        for p in self.by_name.get(nt, []):
+            kids, ok = [], True
+            for s in p.prod:
+                s = str(s)
+                if s in self.terms:
+                    kids.append(s)
+                elif s in self._best:
+                    kids.append(self.best(s))
+                else:
+                    ok = False
+                    break
+            if ok:
+                out.append(Node(p, kids))
+        return out
+
+    def pair_trees(self, prod):
+        """trees of `prod` in which ONE nonterminal child is expanded by each production of its nonterminal, the others shortest"""
+        syms = [str(s) for s in prod.prod]
+        base = [s if s in self.terms else (self.best(s) if s in self._best else None) for s in syms]
+        if any(b is None for b in base):
+            return
+        for j, s in enumerate(syms):
+            if s in self.terms:
+                continue
+            for t in self.production_trees(s):
+                kids = list(base)
+                kids[j] = t
+                yield j, t.prod, Node(prod, kids)
+
     def root_trees(self, prod, picks):
         """the derivation tree of `prod` whose i-th nonterminal child uses alternative picks[i] (0 = shortest)"""
         kids, j = [], 0
